@@ -952,11 +952,14 @@ func (c *ctx) confirmCrash(bins map[string]string, v ev.Violation) bool {
 
 func (c *ctx) replayFile(bins map[string]string, path string, timeout time.Duration) (int, string) {
 	engine := c.engine
+	unprivileged := false
 	if data, err := os.ReadFile(path); err == nil {
 		var v ev.Violation
 		if json.Unmarshal(data, &v) == nil && v.Engine != "" {
 			engine = v.Engine
 		}
+		// cases whose kind starts with "unpriv-" only mean something for a user without special rights
+		unprivileged = strings.HasPrefix(v.Kind, "unpriv-")
 	}
 	bin, ok := bins[engine]
 	if !ok {
@@ -971,9 +974,26 @@ func (c *ctx) replayFile(bins map[string]string, path string, timeout time.Durat
 	_ = os.MkdirAll(out, 0o755)
 	cx, cancel := context.WithTimeout(context.Background(), timeout)
 	defer cancel()
-	cmd := exec.CommandContext(cx, bin, "-test.run", "^TestReplay$", "-test.count", "1", "-test.v", "-test.timeout", "0")
+	argv := []string{bin, "-test.run", "^TestReplay$", "-test.count", "1", "-test.v", "-test.timeout", "0"}
+	env := append(c.baseEnv(out), "VERIF_REPLAY="+path)
+	if sp, err := exec.LookPath("setpriv"); unprivileged && err == nil && os.Geteuid() == 0 {
+		own := filepath.Join(c.work, "replay-unpriv")
+		_ = os.MkdirAll(own, 0o755)
+		_ = os.Chown(own, 65534, 65534)
+		_ = os.Chown(out, 65534, 65534)
+		if data, err := os.ReadFile(path); err == nil {
+			// the replay file may sit where that user cannot read it
+			cp := filepath.Join(own, "case.json")
+			if os.WriteFile(cp, data, 0o644) == nil {
+				env = append(env, "VERIF_REPLAY="+cp)
+			}
+		}
+		env = append(env, "VERIF_WORK="+own, "HOME="+own, "TMPDIR="+own)
+		argv = append([]string{sp, "--reuid=65534", "--regid=65534", "--clear-groups"}, argv...)
+	}
+	cmd := exec.CommandContext(cx, argv[0], argv[1:]...)
 	cmd.Dir = filepath.Join(c.harness, engine)
-	cmd.Env = append(c.baseEnv(out), "VERIF_REPLAY="+path)
+	cmd.Env = env
 	cmd.SysProcAttr = &syscall.SysProcAttr{Setpgid: true}
 	cmd.Cancel = func() error { return syscall.Kill(-cmd.Process.Pid, syscall.SIGKILL) }
 	b, err := cmd.CombinedOutput()
